@@ -30,7 +30,7 @@ class SupDSG(BasicDSG):
 
     def _mod_graph_adjust_kwargs(self, kwargs):
         super()._mod_graph_adjust_kwargs(kwargs)
-        kwargs['choice_mappings'] = self._choice_mappings
+        kwargs['choice_mappings'] = list(self._choice_mappings)  # a derived graph gets its own list
 
     def _mod_graph_inplace(self, kwargs):
         if 'choice_mappings' in kwargs:
